@@ -462,7 +462,8 @@ class tenmat:
         -------
         :class:`numpy.ndarray`, float, int
         """
-        return self.data[item]
+        # Copy so that slices do not alias the matrix
+        return np.array(self.data[item])
 
     def __mul__(self, other):
         """
